@@ -84,7 +84,18 @@ Definition C14_ex_fact : func := {| f_params := [0%N]; f_nres := 1; f_body :=
 (* three results: x+y, a flag, x-y *)
 Definition C14_ex_three : func := {| f_params := [0%N; 1%N]; f_nres := 3; f_body :=
   SReturn [EBin Add (EVar 0%N) (EVar 1%N); EBin Lt (EVar 0%N) (EVar 1%N); EBin Sub (EVar 0%N) (EVar 1%N)] |}.
-Definition C14_ex : program := [C14_ex_main; C14_ex_fact; C14_ex_three].
+(* a switch inside a loop: continue drops the tag, break leaves the switch only, return passes through it *)
+Definition C14_ex_switch : func := {| f_params := [0%N]; f_nres := 1; f_body :=
+  SSeq (SDecl 1%N (ELit 0))
+  (SSeq (SFor (SDecl 2%N (ELit 0)) (EBin Lt (EVar 2%N) (ELit 6)) (SInc 2%N)
+          (SSeq (SSwitch (Some (EVar 2%N))
+                   (CCase true [ELit 1; ELit 4] SContinue
+                   (CCase true [EVar 0%N] (SReturn [EBin Add (EVar 1%N) (ELit 1000)])
+                   (CCase true [ELit 3] (SSeq (SIf (EBin Gt (EVar 1%N) (ELit 0)) SBreak) (SOpAssign 1%N Add (ELit 50)))
+                   (CDefault (SOpAssign 1%N Add (EVar 2%N)))))))
+                (SOpAssign 1%N Add (ELit 100))))
+        (SReturn [EVar 1%N])) |}.
+Definition C14_ex : program := [C14_ex_main; C14_ex_fact; C14_ex_three; C14_ex_switch].
 
 Example C14_example_value :
   run_src 200 C14_ex 0 [VInt 12; VInt 5] = Ok [VInt 207] /\
@@ -95,6 +106,13 @@ Example C14_example_fault :
   run_src 200 C14_ex 0 [VInt 12; VInt 0] = Fault /\
   run_tgt (compile_program C14_ex) 2000 (entry C14_ex 0) [VInt 12; VInt 0] = TFault.
 Proof. split; vm_compute; reflexivity. Qed.
+
+Example C14_example_switch :
+  run_src 200 C14_ex 3 [VInt 9] = Ok [VInt 407] /\
+  run_tgt (compile_program C14_ex) 2000 (entry C14_ex 3) [VInt 9] = THalt [VInt 407] /\
+  run_src 200 C14_ex 3 [VInt 5] = Ok [VInt 1302] /\
+  run_tgt (compile_program C14_ex) 2000 (entry C14_ex 3) [VInt 5] = THalt [VInt 1302].
+Proof. repeat split; vm_compute; reflexivity. Qed.
 
 (* an integer leaving 64 bits is undefined in the source semantics: the theorems say nothing about such runs *)
 Example C14_example_overflow_undefined :
